@@ -554,6 +554,24 @@ func boolFromCompare(c *Ctx, fn *ssa.Function, v ssa.Value, want string, depth i
 				return true
 			}
 		}
+	case *ssa.Call:
+		// a predicate helper (base.isInitializeRequest()): true only where its own comparison is
+		sc := ir.StaticCallee(x)
+		if sc == nil || !c.P.IsLib(sc) || sc.Blocks == nil {
+			return false
+		}
+		any := false
+		for _, b := range sc.Blocks {
+			ret, ok := b.Instrs[len(b.Instrs)-1].(*ssa.Return)
+			if !ok || b == sc.Recover || len(ret.Results) != 1 {
+				continue
+			}
+			if !boolFromCompare(c, sc, ir.Results(ret)[0], want, depth+1) {
+				return false
+			}
+			any = true
+		}
+		return any
 	case *ssa.Parameter:
 		// the decision was made by the callers and handed down (helper extracted from the handler)
 		idx := -1
